@@ -1,5 +1,5 @@
 (** Correspondence judge for C15 (evaluated by [vm_compute] on cases written by the harness). *)
-From TT Require Export Values.Values.
+From TT Require Export Base.Worst Values.Values.
 
 Record vobs := mk_vobs {
   ob_ret : option tvalue;                   (* value returned by insert (None for other ops) *)
